@@ -16,6 +16,11 @@ from lmmm import *
 OCAML = lmmm.OCAML
 HARNESS = lmmm.HARNESS
 
+# edits that remove one site and add another at a different position in ONE swap (response to seeded change C07b).  On the tree before
+# the repair of the sibling matching (exact pairs must outweigh any chain of partial matches) an untouched site loses its state
+# under such edits; switched on together with that repair.
+MIXED_EDITS = False
+
 # ---- voices: functions with pairwise distinct state shapes ----
 def template(k):
     """k -> (has_self, n_mem, delay_n|0); distinct k give distinct skeletons"""
@@ -125,11 +130,21 @@ def run(ck):
             if t >= N:
                 continue
             cur = list(versions[-1][1])
-            kind = r.choice(["insert", "delete", "replace", "const", "nest", "syntaxerr", "typeerr", "insert", "delete"])
+            kind = r.choice(["insert", "delete", "replace", "const", "nest", "syntaxerr", "typeerr", "insert", "delete"] + (["delins", "delins"] if MIXED_EDITS else []))
             if kind == "insert":
                 cur.insert(r.below(len(cur) + 1), Voice(next(fresh), r.range(1, 5), t))
             elif kind == "delete" and len(cur) > 1:
                 del cur[r.below(len(cur))]
+            elif kind == "delins" and len(cur) > 1:
+                # ONE edit removes a voice and adds a new one at ANOTHER position: the number of sites stays the same and the
+                # untouched voices keep their relative order but change their index
+                i = r.below(len(cur))
+                gone = cur[i]
+                del cur[i]
+                js = [j for j in range(len(cur) + 1) if j != i]
+                nv = Voice(next(fresh), r.range(1, 5), t)
+                nv.replaced = gone.k          # the new site may inherit same-shaped cells of the removed one (class F24)
+                cur.insert(r.choice(js), nv)
             elif kind == "replace":
                 pos = r.below(len(cur))
                 nv = Voice(next(fresh), r.range(1, 5), t)
